@@ -36,5 +36,5 @@ def run(check):
     runs = []
     for label, consts, inv in (CONFIGS if check.tier == 'quick' else THOROUGH):
         runs += usimrun.explore(check, None, [(label, consts)], invariants=inv,
-                                limit=None if (check.tier != 'quick' or label == 'close') else 12000)
+                                limit=None if label == 'close' else (12000 if check.tier == 'quick' else 250000))
     usimrun.judge(check, OBS, runs)
